@@ -265,6 +265,21 @@ def stepSess (st : St) (op : String) (rest : List String) : St :=
       let s := if normTable mt ≠ tbl then s.addDiff s!"Cleanup(now={now}) table model={showTable (normTable mt)} impl={showTable tbl}" else s
       { st with s := { s with model := mt, impl := tbl }, cleanups := st.cleanups + 1, cleaned := st.cleaned + (tableSize s.model - tableSize mt) }
     | _, _ => { st with s := s.addDiff "unparsable cleanup line" }
+  | "conc" =>
+    -- several SetHeartbeat calls for one guardian in flight at once: whichever order they take effect in, the cap holds and
+    -- exactly min(writers, cap - before) of them succeed
+    match kvHex rest "addr", kvNat rest "before", kvNat rest "writers", kvNat rest "oks", kv rest "tbl" >>= parseTable with
+    | some a, some before, some writers, some oks, some tblRaw =>
+      let tbl := normTable tblRaw
+      let s := capSpec s tbl
+      let have_ := ((tbl.lookup a).getD []).length
+      let want := min writers (cfg.cap - before)
+      let s :=
+        if oks ≠ want ∨ have_ ≠ before + want then
+          s.addDiff s!"concurrent SetHeartbeat: {writers} writers on {before} entries: {oks} succeeded, {have_} entries afterwards (model: {want} succeed, {before + want} entries)"
+        else s
+      { st with s := { s with model := tbl, impl := tbl }, sethbs := st.sethbs + writers, maxPerGuardian := max st.maxPerGuardian (maxInner tbl) }
+    | _, _, _, _, _ => { st with s := s.addDiff "unparsable conc line" }
   | "end" => { st with s := { s with ended := true } }
   | _ => { st with s := s.addDiff s!"unknown op {op}" }
 
